@@ -117,7 +117,7 @@ def driver_check(env, ops, desc, violations, counters):
                 after = env.chain_dense(list(new), before.shape[1]) if new else np.eye(before.shape[1])
                 if before.shape != after.shape or not P.close(after, before, env.tol() or 1e-6):
                     unsound.append((name, left, right))
-            except P.LibError:
+            except (P.LibError, ValueError):   # operands that do not even chain: certainly not a sound firing
                 unsound.append((name, left, right))
         w = {'singular_inverse_collapse': bool(unsound) and all(n == 'InverseBinaryRule' and singular_witness(n, l, r) for n, l, r in unsound),
              'other_unsound': not unsound or any(not (n == 'InverseBinaryRule' and singular_witness(n, l, r)) for n, l, r in unsound)}
